@@ -55,9 +55,17 @@ def _py_role(e: ast.AST, fnode=None, depth=0):
         return PY_ROLE[t]
     if isinstance(e, ast.Name) and fnode is not None and depth < 2:
         roles = set()
+        defs = []
         for n in ast.walk(fnode):
-            if isinstance(n, ast.Assign) and len(n.targets) == 1 and isinstance(n.targets[0], ast.Name) and n.targets[0].id == e.id:
-                v = n.value
+            if isinstance(n, ast.Assign) and len(n.targets) == 1:
+                t0 = n.targets[0]
+                if isinstance(t0, ast.Name) and t0.id == e.id:
+                    defs.append(n.value)
+                elif isinstance(t0, ast.Tuple) and isinstance(n.value, ast.Tuple) and len(t0.elts) == len(n.value.elts):
+                    # a, b = x.cores, x.R
+                    defs += [v for t, v in zip(t0.elts, n.value.elts) if isinstance(t, ast.Name) and t.id == e.id]
+        for v in defs:
+            if True:
                 if isinstance(v, ast.Constant) and isinstance(v.value, int):
                     roles.add("const-int")
                 elif isinstance(v, ast.BinOp) and isinstance(v.op, ast.Mult) and any(isinstance(x, ast.List) for x in (v.left, v.right)):
